@@ -73,6 +73,9 @@ def execute(ctx, case):
     lo, up = case["lower"], case["upper"]
     with monitors.oracle_scope_ctx():
         s = derive.build(pos, neg, ep, en, sc, ec, case.get("via", "ctor"), case.get("_seed", 0))
+    # relations are about the object under test: a derived object (bootstrap sample, swap of a sample) has its own content
+    pos, neg, ep, en = np.asarray(s.pos), np.asarray(s.neg), int(s.nb_easy_pos), int(s.nb_easy_neg)
+    sc, ec = s.score_class.value, s.equal_class.value
     a_full = s.auc()  # all judged by M-auc
     a = s.auc(lo, up)
     s.auc(lo, up, y_axis="fnr")
